@@ -92,7 +92,9 @@ CHECKS.update({
               'precondition; LocalDateTime conversions enter as function contracts whose obligations are C06 lemmas. Database '
               'zones: for a seed-rotated sample of zones every instant of 2000..2049 is shown to get a non-error offset '
               'within the lemma range (engine run as in C01/C02), and the complete symbolic round trip / conversion is '
-              'executed for a few (zone, year) instances of each kind (extended, basic, manager-created).'),
+              'executed for a few (zone, year) instances of each kind (extended, basic, manager-created). compareTo inside one '
+              'database zone: two symbolic instants t < t+d (d <= 2 h) around seed-drawn backward offset changes, exact calendar '
+              'window contract so that counterexamples replay.'),
         technique='symbolic execution of clang LLVM IR (llsym) + SMT (z3/cvc5 portfolio); function contracts with uninterpreted calendar symbols',
     ),
 })
@@ -106,14 +108,17 @@ CHECKS.update({
               'in-range UTC year, far below / far above the zone data, the error sentinel); after it one more symbolic query is '
               'answered by the used objects and by a fresh time zone with its own processor in the same state, and the '
               'answers must coincide (SMT per path). Fixed patterns (repeat out-of-range, A-then-B) plus seed-drawn histories '
-              'and zone pairs.'),
-        technique='symbolic execution of clang LLVM IR (llsym) + SMT; bounded history enumeration with symbolic arguments',
+              'and zone pairs. Inductive step on the recycled storage: with every byte of the extended transition pool and match '
+              'array / the basic transition slots an unconstrained solver variable, the cache-rebuilding query answers like a '
+              'processor with zero-filled storage for every instant of the year (all zones; 12 drawn years quick, all 50 thorough).'),
+        technique='symbolic execution of clang LLVM IR (llsym) + SMT; bounded history enumeration with symbolic arguments; one inductive step from arbitrary stale storage',
     ),
     'C16': dict(
         script='checks/c16.py', category='model_checking', design='DESIGN.md §4 C16',
         text=('TimeZone / TimeZoneData / ZoneManager on the real IR: manual offsets (all int16 pairs, two operands), probe '
               'instants and zone ids (including ids assumed absent from all registry entries) are solver variables; every '
-              'entry of both shipped registries is a concrete case (save, restore, equality, same answers).'),
+              'entry of both shipped registries is a concrete case (save, restore, equality, same answers); an 11-call restore '
+              'history (present and symbolic absent ids interleaved) on one manager per drawn zone pair.'),
         technique='symbolic execution of clang LLVM IR (llsym) + SMT; registry index case split',
     ),
 })
@@ -186,8 +191,9 @@ CHECKS.update({
         script='checks/c03.py', category='translation_validation', design='DESIGN.md §4 C03', engine='llsym',
         text=('Translation validation per program: the real tzcompiler pipeline (extractor, transformer, Arduino generator '
               'with buffer estimator, zone list, tzdb collector) is run on concrete TZ sources (the 2020d subset reconstructed '
-              'from the shipped tables, and a synthetic source exercising odd-minute offsets, half-hour SAVE, <= / >= / last '
-              'rules, UNTIL suffixes, multi-era zones, links), both scopes; the generated C++ tables are compiled with the '
+              'from the shipped tables, the 2025b release de-shrunk from tzdata.zi, and a synthetic source exercising odd-minute '
+              'offsets, half-hour SAVE, <= / >= / last rules, off-grid AT/UNTIL minutes, UNTIL suffixes, multi-era zones, a policy '
+              'basic scope must reject, links; plus seed-drawn single-field variants), both scopes; the generated C++ tables are compiled with the '
               'library to IR and every emitted zone is decided against zic on the same text for every instant of 2000..2049 '
               '(symbolic t, C01/C02 machinery); every Zone/Link name must be emitted or reported removed, registry order and '
               'zones.txt are checked. The source text itself is not symbolic.'),
@@ -198,7 +204,8 @@ CHECKS.update({
         text=('Symbolic part: the real PythonGenerator item renderers run by pysym with every numeric field symbolic; the '
               'rendered Python source is parsed and every rendered field compared with the in-memory field by SMT (lossless '
               'rendering for all values). Concrete part per program x scope: imported Python tables equal the in-memory tables, '
-              'header counts, zones.txt, basic subset of extended. Determinism is NOT decided by a solver; it is smoke-tested by '
+              'header counts, zones.txt, basic subset of extended, and the generated C++ tables of both scopes decoded through the '
+              'library brokers agree for every shared zone without a truncation note. Determinism is NOT decided by a solver; it is smoke-tested by '
               'compiling each configuration in two interpreters with different hash seeds and diffing every output file.'),
         technique='token execution of the Python renderers (pysym + SMT); concrete consistency checks; determinism smoke test (not solver-decided)',
     ),
@@ -223,7 +230,8 @@ CHECKS.update({
         script='checks/c07.py', category='model_checking', design='DESIGN.md §4 C07',
         text=('ZonedDateTime::forComponents -> TimeZone::getOffsetDateTime -> Extended/Basic processor on the real IR with the '
               'time of day (hour, minute, second) symbolic and the local date a driver case split: every date that contains a '
-              'zic discontinuity of the zone in 2000..2049 (in either offset), its neighbours and seed-drawn ordinary dates; the '
+              'zic discontinuity of the zone in 2000..2049 (in either offset), its neighbours, seed-drawn ordinary dates and the four '
+              'edge days of the supported years; the '
               'processor cache is primed with an earlier instant first. Per leaf and zic segment, SMT decides: a wall time that '
               'occurs once comes back unchanged with that offset, one that occurs twice comes back unchanged with one of the two '
               'offsets, one that does not occur is moved forward by the gap and gets the later offset; never an error value; the '
